@@ -6,6 +6,32 @@ from .stream import SimStream, SimHang, temp_seam
 from .wsgi import make_environ, call_app, ErrStream
 from .sched import no_preempt
 
+_DIRECT = []
+
+
+def direct_api():
+    """The low-level reader the statements of C04 / C05 are anchored in (`body_mixin._body_read`) and the error class of
+    the chunked decoder, or None when the code under test does not offer them in the shape the direct level drives
+    (a private helper may be renamed or re-shaped at any time: the direct level is then served through WSGI like every
+    other run - never an alarm).  Decided once per process by a fault-free probe."""
+    if not _DIRECT:
+        api = None
+        try:
+            import io
+            from ombott.request_pkg.body_mixin import _body_read
+            from ombott.request_pkg.errors import BodyParsingError
+            f = _body_read(io.BytesIO(b'ab').read, 4, content_length=2)
+            f.seek(0)
+            g = _body_read(io.BytesIO(b'1\r\nx\r\n0\r\n\r\n').read, 4, chunked=True)
+            g.seek(0)
+            if f.read() == b'ab' and g.read() == b'x' and issubclass(BodyParsingError, Exception):
+                api = (_body_read, BodyParsingError)
+        except Exception:       # noqa
+            api = None
+        _DIRECT.append(api)
+    return _DIRECT[0]
+
+
 SHARED = {'on': False, 'app': None, 'cfg': None, 'n': 0, 'handlers': {}}
 
 
